@@ -69,6 +69,8 @@ func main() {
 		os.Exit(core.WorkerMain(spec, *tier, *seed, *wid, *nw, *total, dl, *digests))
 	case "exec":
 		os.Exit(core.ExecMain(spec, *tier))
+	case "selftest":
+		os.Exit(core.SelftestMain(*prop, *tier, *seed, int(*total)))
 	case "show":
 		// render one run of the live tape
 		res := core.SafeRun(spec.New(*tier), core.NewLiveTape(*seed, *idx), true)
